@@ -1,6 +1,7 @@
 """C11: FEN parsing/printing (Fen.tla, FenGen.tla, FenTrace.tla, GameTrace.tla round trip)."""
 import json
 import os
+import shutil
 import time
 
 import tracecheck as tc
@@ -18,6 +19,17 @@ def c11(prop, tier, replay):
         bins = vf.build_harness(work, ["rec-board", "rec-fen"])
         if replay:
             rp = json.load(open(replay))
+            if rp.get("kind") == "fen-rejected":
+                cf = os.path.join(work, "one.fen")
+                with open(cf, "w") as f:
+                    f.write(rp["fen"] + "\n")
+                path = os.path.join(work, "replay.ndjson")
+                vf.run_recorder([bins["rec-board"], "-mode", "list", "-obs", "fen,canon", "-corpus", cf, "-out", path], timeout=600)
+                _, mm, _ = tc.validate_trace(work, "GameTrace", path)
+                if [m for m in mm if m["rule"].startswith(("C11/", "PANIC/"))]:
+                    print("VIOLATION property=C11 replay=%s" % replay)
+                    return 1
+                return 0
             inp = os.path.join(work, "in.jsonl")
             with open(inp, "w") as f:
                 f.write(json.dumps(rp["input"]) + "\n")
@@ -41,6 +53,20 @@ def c11(prop, tier, replay):
         roots = os.path.join(work, "bases.ndjson")
         vf.run([bins["rec-board"], "-mode", "list", "-obs", "fen,canon", "-corpus", fens, "-out", roots], timeout=900)
         base_fens = [l.strip() for l in open(fens) if l.strip()]
+        # a generated valid position the engine refuses to load cannot serve as a base: it is judged by GameTrace
+        # (C11/valid-fen-rejected) and the bases are listed again without it
+        rej = [e for e in vf.read_ndjson(roots) if e.get("ev") == "fenRejected"]
+        rejected_file = None
+        if rej:
+            rejected_file = os.path.join(work, "bases-rejected.ndjson")
+            with open(rejected_file, "w") as f:
+                for e in rej:
+                    f.write(json.dumps(e) + "\n")
+            bad = {e["fen"] for e in rej}
+            base_fens = [x for x in base_fens if x not in bad]
+            with open(fens, "w") as f:
+                f.write("\n".join(base_fens) + "\n")
+            vf.run([bins["rec-board"], "-mode", "list", "-obs", "fen,canon", "-corpus", fens, "-out", roots], timeout=900)
         # 1. round trip on positions (GameTrace: C11/fen-parse on load, C11/fen-print on every event)
         jobs = []
         plan = [("positions", "fen,canon", 6, 5000 if quick else 50000), ("play", "fen", 4, 4000 if quick else 40000)]
@@ -53,6 +79,8 @@ def c11(prop, tier, replay):
                 def record(path, args=args):
                     vf.run_recorder([bins["rec-board"]] + args + ["-corpus", CORPUS, "-out", path], timeout=900)
                 jobs.append(dict(name="C11-%s-%d" % (mode, i), record=record, args=args))
+        if rejected_file:
+            jobs.append(dict(name="C11-bases-rejected", record=lambda path: shutil.copy(rejected_file, path), args=["bases"]))
         # 2. TLC generates the inputs, the replayer probes them, TLC judges the observations
         nsh = vf.NCPU
         synevery = 8 if quick else 5
@@ -114,6 +142,10 @@ def c11(prop, tier, replay):
                 continue
             evs = cache.setdefault(m["file"], vf.read_ndjson(m["file"]))
             ev = evs[m["l"] - 1]
+            if ev.get("ev") == "fenRejected":
+                paths.append(vf.write_replay(prop, "%s-%d" % (m["rule"].split("/")[1][:40], len(paths)),
+                                             {"property": prop, "kind": "fen-rejected", "fen": ev["fen"], "rejected": {kk: v for kk, v in m.items() if kk not in ("file", "args")}}))
+                continue
             text = ev["s"] if ev.get("s") else None
             entry = {"kind": "C" if ev["canon"] else "S", "base": ev["t"], "s": text if text is not None else "", "pos": ev.get("want")}
             paths.append(vf.write_replay(prop, "%s-%d" % (m["rule"].split("/")[1][:40], len(paths)),
